@@ -87,6 +87,13 @@ CLAIMED = {
         "reaches logos unchanged, and the parser constructs no text range of its own (resolved calls, lexer as positive control).",
    technique="static analysis: table agreement + pairing rule in build_tree + who-may-call on resolved callees (MIR)",
    ref="DESIGN.md section 4, C12"),
+ "C20": dict(
+   text="Static decision on the resolved call graph: every panic-capable site (panic/unreachable/assert/unwrap/expect/str range slice) "
+        "reachable from the hover/completion entry points is a reviewed ledger entry or a grammar precondition whose call sites are all "
+        "guarded; token_at_offset offsets are bounds-checked; hover types and the elaboration the compile path reads are the same value. "
+        "That offered completions type-check is not decided.",
+   technique="static analysis: MIR call-graph reachability of panic sites with a per-function ledger, guard-dominates-call rule, record/record agreement",
+   ref="DESIGN.md section 4, C20"),
  "C13": dict(
    text="Static decision that no nondeterminism source can reach compiler output: every resolved iteration over a std/im "
         "HashMap/HashSet is followed to its sink (order-free / sorted / ordered=violation), read_dir listings and "
